@@ -370,6 +370,10 @@ impl CommandLine {
         for sub_tokens in split_tokens_by_pipes(&tokens) {
             match Command::from_tokens(sub_tokens) {
                 Ok(c) => {
+                    if c.tokens.is_empty() {
+                        // only redirections, e.g. `<<<` or `> f`
+                        return Err(String::from("syntax error: command expected"));
+                    }
                     commands.push(c);
                 }
                 Err(e) => {
